@@ -139,12 +139,15 @@ package sqlgen
 // query registered under index i is items[i], and the result list has one entry per query, in order.
 //@ func NewDB$1
 //@   ghost cur int
-//@   call Table.driverValueMap#1 assert arg1 == query.Filter
-//@   call matcher.add assert arg1 == any(i) && arg2 == f
+//@   keeps []Filter              // the column valuers and the driver do not reach the local list of converted filters
+// (defect s30: the SELECT was built from the raw filter values - a zero value of an implicitnull column went into the IN
+// list instead of IS NULL - while only the matcher used driver values; both now use the same converted filters)
+//@   call Table.driverValueMap#1 assert arg0 == table && arg1 == items[rangeindex+1].(*BaseSelectQuery).Filter
+//@   call makeBatchQuery assert arg0 == filters && len(filters) == len(items)
+//@   call matcher.add assert arg1 == any(i) && arg2 == filters[i]
 //@   call Table.extractRow assert arg1 == row
 //@   call Table.driverValueMap#2 assert arg0 == table
 //@   call matcher.match assert arg1 == f
-//@   call makeBatchQuery assert len(arg0) == len(items)
 //@   ensures err == nil ==> len(result) == len(items)
 //@   loop 1 invariant -1 <= rangeindex && rangeindex < len(items) && len(filters) == rangeindex+1 && fresh(filters)
 //@   loop 5 invariant -1 <= rangeindex && rangeindex < len(results) && len(results) == len(items) && len(rawResults) == rangeindex+1 && fresh(rawResults)
@@ -167,3 +170,29 @@ package sqlgen
 //@   requires s != nil
 //@   call Sprintf assert arg0 == "(%s) AND (%s)" && len(arg1) == 2 && arg1[0] == any(filterWhere) && arg1[1] == any(s.Where)
 //@   call append assert filterWhere != "" && arg0 == filterValues && arg1 == s.Values
+
+// ---- C07 / C10 (the row tester): a row is accepted only after EVERY filter column has been compared - the filter's value
+// for that column against the row's value of that same column, both as driver values - and every comparison said equal.
+//@ func tester.Test
+//@   requires t != nil && len(t.values) >= len(t.columns)
+//@   keeps tester, []*Column, []interface{}          // the column valuers do not reach the tester or its two lists
+//@   ghost ncmp int
+//@   ghost alleq bool
+//@   entry ghost ncmp = 0
+//@   entry ghost alleq = true
+//@   call driverValuesEqual assert arg0 == expected && arg1 == value
+//@   call driverValuesEqual ghost ncmp = ncmp + 1
+//@   call driverValuesEqual ghost alleq = alleq && ret0
+//@   loop 1 invariant -1 <= rangeindex && rangeindex < len(t.columns) && ncmp == rangeindex + 1 && alleq
+//@   ensures result ==> ncmp == len(t.columns) && alleq
+
+// MakeTester: every column the filter names is in the tester, paired with the filter's own value for it (no column is
+// dropped, no value is paired with another column), and a filter naming an unknown column is rejected.
+//@ func Schema.MakeTester
+//@   requires s != nil
+//@   ghost idx map[string]int
+//@   call append#1 ghost idx[rangekey] = len(columns)
+//@   call append#1 assert arg1[0] == column && column == t.ColumnsByName[rangekey] && len(columns) == len(values)
+//@   call append#2 assert arg1[0] == value && value == filter[rangekey] && len(columns) == len(values) + 1
+//@   loop 1 invariant len(columns) == len(values) && (forall n string :: visited[n] ==> 0 <= idx[n] && idx[n] < len(columns) && columns[idx[n]] == t.ColumnsByName[n] && values[idx[n]] == filter[n])
+//@   ensures err == nil ==> result != nil
